@@ -131,6 +131,9 @@ REQ_TEMPLATES = {
     "upgrade": b"GET /ws HTTP/1.1\r\nHost: a\r\nConnection: upgrade\r\nUpgrade: websocket\r\n\r\n\x81\x01x",
     "connect": b"CONNECT a:80 HTTP/1.1\r\nHost: a\r\n\r\nraw",
     "close": b"GET / HTTP/1.1\r\nHost: a\r\nConnection: close\r\n\r\nGET /2 HTTP/1.1\r\nHost: a\r\n\r\n",
+    # each kind of line in turn is the longest one (the limits are symbolic around the start line and the longest field)
+    "long-trailer": b"POST / HTTP/1.1\r\nHost: a\r\nTransfer-Encoding: chunked\r\n\r\n1\r\na\r\n0\r\nX-Trailer-Field: 0123456789abcdef012345\r\nT2: v\r\n\r\n",
+    "long-chunk-ext": b"POST / HTTP/1.1\r\nHost: a\r\nTransfer-Encoding: chunked\r\n\r\n1;ext=0123456789abcdef0123456789\r\na\r\n0\r\n\r\n",
 }
 RESP_TEMPLATES = {
     "ok-cl": b"HTTP/1.1 200 OK\r\nContent-Length: 3\r\nX: y\r\n\r\nabcHTTP/1.1 204 No Content\r\n\r\n",
@@ -138,6 +141,7 @@ RESP_TEMPLATES = {
     "lf-only": b"HTTP/1.1 200 OK\nContent-Length: 2\nFold: a\n b\n\nhi",
     "eof-body": b"HTTP/1.0 200 OK\r\nX: y\r\n\r\nbody until eof",
     "chunked-lax": b"HTTP/1.1 200 OK\r\nTransfer-Encoding: chunked\r\n\r\n 3 \r\nabc\r\n0\r\n\r\n",
+    "long-trailer": b"HTTP/1.1 200 OK\r\nTransfer-Encoding: chunked\r\n\r\n1\r\na\r\n0\r\nX-Trailer-Field: 0123456789abcdef012345\r\n\r\n",
 }
 
 
@@ -154,7 +158,7 @@ def template(ctx, kind="req", name="get", lo=0, hi=None, h=1, ncuts=1, sym_limit
     else:
         data = t
     first = t.find(b"\n")
-    longest = max(len(x) for x in t.split(b"\n")[1:6]) if sym_limits else 0
+    longest = max(len(x) for x in t.split(b"\n")[1:]) if sym_limits else 0
     lim = _limits(ctx, first - 1, longest - 1, sym_limits)
     return _run(ctx, data, ncuts, lim, kind == "resp", bytewise, near=near)
 
@@ -189,7 +193,7 @@ def jobs(tier):
                             params=dict(kind=kind, name=name, h=0, ncuts=2), limits=lim))
             out.append(dict(name=f"{kind}-{name}-bytewise", func="template",
                             params=dict(kind=kind, name=name, h=0, bytewise=True), limits=lim))
-            if quick and name in ("connect", "close", "eof-body"):
+            if quick and name in ("connect", "close", "eof-body", "long-trailer", "long-chunk-ext"):
                 continue
             for lo in range(0, len(t), span):
                 out.append(dict(name=f"{kind}-{name}-w1-{lo}", func="template",
